@@ -498,6 +498,9 @@ class ExprFormatted(Expr):
 
     def iterate(self, *, flat: bool = True) -> Iterator[str | Expr]:
         yield "{"
+        if _precedence(self.value) >= _Precedence.OR and str(self.value).startswith("{"):
+            # Two consecutive opening braces would be an escaped brace: `f'{ {1: 2}[1]}'`.
+            yield " "
         yield from _yield(self.value, flat=flat, precedence=_Precedence.OR)
         if self.conversion != -1:
             yield f"!{chr(self.conversion)}"
